@@ -257,6 +257,21 @@ STAGES = {
   "filter.resonator_stream": stage(lambda p: "(GZip %s)" % nl([0, 1]),
                                    lambda al, lit, s, p: al.resonator(al.Stream(s[1]) * 0 + .2, .05)(s[0]),
                                    nsrc=2, first=True, kind="zip"),
+  "filter.comb_stream": stage(lambda p: "(GZip %s)" % nl([0, 1]),
+           lambda al, lit, s, p: al.comb.fb(2, al.Stream(s[1]) * 0 + .5)(s[0]),
+           nsrc=2, first=True, kind="zip"),
+  "filter.highpass_stream": stage(lambda p: "(GZip %s)" % nl([0, 1]),
+           lambda al, lit, s, p: al.highpass(al.Stream(s[1]) * 0 + .1)(s[0]),
+           nsrc=2, first=True, kind="zip"),
+  "CascadeFilter.timevar": stage(lambda p: "(GZip %s)" % nl([0, 1]),
+           lambda al, lit, s, p: al.CascadeFilter(1 - Z(al) ** -1, 1 + al.Stream(s[1]) * Z(al) ** -1)(s[0]),
+           nsrc=2, first=True, kind="zip"),
+  "ParallelFilter.timevar": stage(lambda p: "(GZip %s)" % nl([0, 1]),
+           lambda al, lit, s, p: al.ParallelFilter(1 - Z(al) ** -1, 1 + al.Stream(s[1]) * Z(al) ** -1)(s[0]),
+           nsrc=2, first=True, kind="zip"),
+  "ParallelFilter.timevar_first": stage(lambda p: "(GZip %s)" % nl([0, 1]),
+           lambda al, lit, s, p: al.ParallelFilter(1 + al.Stream(s[1]) * Z(al) ** -1, 1 - Z(al) ** -1)(s[0]),
+           nsrc=2, first=True, kind="zip"),
   "modulo_counter.start_step": stage(lambda p: "(GZip %s)" % nl([0, 1]), lambda al, lit, s, p: al.modulo_counter(s[0], 7., s[1]),
                                      nsrc=2, first=True, kind="zip"),
   "modulo_counter.all": stage(lambda p: "(GZip %s)" % nl([0, 1, 2]),
